@@ -472,10 +472,21 @@ func c44BuildModel(c c44Case) *c44Model {
 				before = false
 			}
 		}
+		// "after": the switch starts only after the teardown completed. A close
+		// call returning is NOT proof of that: Close/CloseWith return ErrClosedConn
+		// as soon as another cause has cancelled the context, while that other
+		// cause may still be on its way to read the active handler. So the handler
+		// is only fixed to the first one when some definite cause precedes the
+		// switch AND every possible cause does.
 		after := false
 		for _, x := range definite {
 			if c44KB(x, *sw) {
 				after = true
+			}
+		}
+		for _, x := range causes {
+			if !c44KB(x, *sw) {
+				after = false
 			}
 		}
 		switch {
